@@ -241,6 +241,11 @@ Definition higher (k : Z) (t : tree) := higher_from k t None.
 Definition floor (k : Z) (t : tree) := floor_from k t None.
 Definition lower (k : Z) (t : tree) := lower_from k t None.
 
+Definition m_access (acc k : Z) (t : tree) : option kv :=
+  if acc =? 0 then min_entry t else if acc =? 1 then max_entry t
+  else if acc =? 2 then floor k t else if acc =? 3 then ceiling k t
+  else if acc =? 4 then higher k t else if acc =? 5 then lower k t else None.
+
 (* successor(e) / predecessor(e) of the node holding k (entry.go): leftmost node of the right
    subtree, else the nearest ancestor reached from its left subtree *)
 Fixpoint succ_from (k : Z) (t : tree) (anc : option Z) : option Z :=
@@ -401,6 +406,31 @@ Definition mstep (s : mstate) (o : op) : mstate * out :=
       | None => (s, OUnit)
       end
   | Probe => (s, OUnit)
+  (* Entry.SetValue writes the node's value field: no descent, no version change.  [put] on a
+     present key is exactly that (same shape and colours, value replaced). *)
+  | SetValueAt acc k v =>
+      match m_access acc k t with
+      | Some (k', old) => (mk_mstate (put k' v t) (m_size s) (m_ver s) (m_its s), OVal (Some old))
+      | None => (s, OVal None)
+      end
+  | EntryEquals acc1 k1 acc2 k2 =>
+      match m_access acc1 k1 t, m_access acc2 k2 t with
+      | Some a, Some b => (s, OBool (kv_same a b))
+      | _, _ => (s, OUnit)
+      end
+  | IterSetValue slot v =>
+      match m_its s slot with
+      | Some it =>
+          match mi_last it with
+          | Some k =>
+              if (mi_kind it <=? 1) && (mi_exp it =? m_ver s) then
+                (mk_mstate (put k v t) (m_size s) (m_ver s) (m_its s),
+                 OVal (Some (match lookup k t with Some old => old | None => 0 end)))
+              else (s, OUnit)
+          | None => (s, OUnit)
+          end
+      | None => (s, OUnit)
+      end
   end.
 
 Fixpoint mrun (s : mstate) (ops : list op) : mstate * list out :=
